@@ -109,6 +109,7 @@ func execRules(c *Ctx, full bool) {
 		c.Rule("R09i+", "cross-reference (thorough): the same error-discipline rule over both modules", 100)
 		errReturnLint(c, "R09i+", func(fi *FuncInfo) bool { return fi.Pkg.PkgPath != pMigrate })
 	}
+	c.Rule("R09m", "Execute never makes progress under a stale Total: every statement execution (ExecContext, directly or through a helper) is preceded on every path by a store of Revision.Total from the current statement count (constructor literal or assignment), so each later write of the revision — per statement, deferred, or none because the process died — leaves Applied < Total while statements remain. (The refresh must not precede the history check: R12c.)", 1)
 	c.Rule("R09j", "Execute: completion agrees with Pending's completeness test (Applied == Total): every path to the point where the file is marked complete (PartialHashes cleared) has stored Revision.Total from the current statement count, also when resuming a revision whose file tail was edited", 1)
 	c.Rule("R09g", "writeRevision reaches RevisionReadWriter.WriteRevision on every path and wraps its error in WriteRevisionError", 2)
 	if full {
@@ -266,6 +267,17 @@ func execRules(c *Ctx, full bool) {
 		} else {
 			n, ok := f.mustPrecede(setsTotal, isComplete)
 			c.Check("R09j", "Execute|Total stored before completion", nodePos(n, s.fi.Decl.Pos()), ok, "the file is marked complete at %s on a path (resumed revision) that never stored Revision.Total from the current statement count: if the pending tail was edited to a different length the revision ends with Applied != Total, Pending keeps treating it as partial and the next run indexes the cleared PartialHashes", c.nodeAt(n))
+		}
+
+		// R09m: no statement is executed while Total is stale
+		{
+			isExec := f.callNode(c.viaHelpers(func(fn *types.Func, _ *ast.CallExpr) bool { return fn.Name() == "ExecContext" }, 2))
+			if len(f.find(isExec)) == 0 {
+				c.Unresolved("R09m", "Execute: statement execution (ExecContext)")
+			} else {
+				n, ok := f.mustPrecede(setsTotal, isExec)
+				c.Check("R09m", "Execute|Total current before a statement is executed", nodePos(n, s.fi.Decl.Pos()), ok, "a statement is executed at %s on a path (an existing, partially applied revision) that has not stored Revision.Total from the current statement count: if the pending tail was edited to hold more statements and this attempt fails or dies when Applied reaches the old Total, the stored revision has Applied == Total, Pending treats the file as done and its remaining statements are never executed", c.nodeAt(n))
+			}
 		}
 	}
 
